@@ -68,10 +68,17 @@ CHECKS = {
                      "windows of 2 keys, 3-4 messages per sender"],
     ),
     "C11": dict(
-        harness="pkg__secretstore", run="TestVerifC11", level="exploration",
+        level="exploration",
+        parts=[
+            dict(name="derivations", harness="pkg__secretstore", run="TestVerifC11"),
+            dict(name="concurrent", harness="pkg__secretstore", run="TestVerifC11Conc", variant="sched-secret", gomaxprocs=2, shards={"quick": 4, "thorough": 8}),
+        ],
         technique="exhaustive enumeration: all ordered account pairs of a 6-key alphabet, all operation sequences to depth 4/5 over derive/export/import/reopen on two real stores, complete import-refusal catalogue (every truncation length, foreign key types, swapped/equal/empty blobs)",
         rule="every element enumerated is executed on real secret stores; distinct = (check kind, case class, outcome)",
-        assumptions=["6 deterministic account keys, 2 multi-member groups, 3 devices per account; keys outside the alphabet are not covered ('thousands of random pairs' would be sampling)"],
+        assumptions=["6 deterministic account keys, 2 multi-member groups, 3 devices per account; keys outside the alphabet are not covered ('thousands of random pairs' would be sampling)",
+                     "one multi-member group uses a contact's account key as its identifier (both derivations address the cache of agreement keys by public key)",
+                     "part 'derivations' also fails each keystore/datastore operation of every derivation once (one transient storage fault): the call fails or returns the agreed value, and the values are unchanged afterwards",
+                     "part 'concurrent': two (thorough: three) tasks use a derived or lazily generated key for the first time at the same moment on the real store under the controlled scheduler (scheduling points at the package's mutex operations and every datastore operation, preemption bound 2 / 3); every task must be handed the key the store holds afterwards"],
     ),
     "C05": dict(
         level="model_checking",
@@ -186,11 +193,16 @@ CHECKS = {
                      "store-level part: 5 representative types in quick, all in thorough; emission is observed up to an honest sentinel event processed by the same single consumer"],
     ),
     "C12": dict(
-        harness="root", run="TestVerifC12", level="exploration",
+        level="exploration",
+        parts=[
+            dict(name="store", harness="root", run="TestVerifC12"),
+            dict(name="service", harness="root", run="TestVerifC12b"),
+        ],
         technique="exhaustive enumeration: every single-bit flip, removal and truncation of the identifier, secret and signature of an invitation, every group-type substitution and foreign secret/signature, through the real account-group store; replication descriptors of all three group types tried against every envelope of a real session",
         rule="2 invitations x (256+256+512 bit flips + removals/truncations + 6 group-type values + 2 foreign-secret variants); valid join then identity comparison; per group type the descriptor is compared field by field, tried on every metadata and message envelope produced by a real member, and its log addresses compared; distinct = (mutation kind, outcome) classes",
         assumptions=["a nil group is a malformed request, exercised at the service boundary by C19",
-                     "the link-key fields of an invitation are not part of what the property requires to be authenticated"],
+                     "the link-key fields of an invitation are not part of what the property requires to be authenticated",
+                     "part 'service' (added after a sub-agent's change stored the group before checking it): the same catalogue through the service's MultiMemberGroupJoin; a refused invitation must leave the group unknown to GroupInfo, and the genuine invitation accepted afterwards must be held exactly as invited, with group-specific keys"],
     ),
     "C08": dict(
         harness="root", run="TestVerifC08", variant="sched-msg", level="model_checking", gomaxprocs=2,
